@@ -3,7 +3,7 @@ model/table and stream framing of each codec is parsed back with the same widths
 from vlib import fixtures
 import re
 
-from rules import miss, pair
+from rules import miss, pair, sibling
 from vlib.mir import Fn
 from vlib.run import Broken
 
@@ -19,7 +19,10 @@ PAIRS = [
 
 def run(ctx):
     fx = ctx.facts("default")
-    fixtures.run(ctx, ['miss', 'pair'])
+    fixtures.run(ctx, ['miss', 'pair', 'fallback'])
+    # encoder and decoder choose the single-stream fallback by the same test
+    sibling.run(ctx, fx, ['src/entropy/rans.rs', 'src/entropy/fse.rs', 'src/entropy/huffman.rs'])
+    ctx.floor('R-SIBLING.fallback.pairs', 2)
     miss.run(ctx, fx, FILES, LOOKUPS, only=lambda f: not re.search(r'estimate|::tests::', f))
     ctx.floor("R-MISS.lookups", 12)
     ev = 0
